@@ -203,3 +203,12 @@ def run(ctx):
         if ev.variant(r) != cls or (cls == "Ok" and got != d):
             ctx.violation("final|reachable-data-differs", f"key {k!r}: cache gives {ev.brief(r)}, model {cls}", {})
     ctx.extra["max_quiesce_polls"] = maxpolls
+    if not ctx.quick:
+        # leak reports: a temp-file handle or blocking-task state that is leaked rather than dropped
+        from .. import san
+        work = ctx.new_dir("san")
+        n = 0
+        for v in ("astd", "tok"):
+            n += san.asan(ctx, v, lambda c: san.writer_script(rng, c, 400, 100000), work, f"abandon-{v}")
+        n += san.miri(ctx, "miri-sync", lambda c: san.writer_script(rng, c, 50, 10000, modes=("sync",)), work, "abandon-mirisync")
+        ctx.extra["sanitizer_replay_ops"] = n
